@@ -521,6 +521,20 @@ func deepSpecOf() seqmc.Spec {
 	}}
 }
 
+// literalGlobSpec: stored elements that are SPELLED like the wildcard. Add does
+// not interpret its path, so "a/*/x" is a legal leaf path whose middle element
+// is named "*"; in a query or delete pattern "*" stays a wildcard and matches
+// that name like any other. A lookup that prefers the literal child over the
+// expansion (or the reverse in Delete) makes Query and Delete disagree.
+func literalGlobSpec() seqmc.Spec {
+	lit := mkExplicit(
+		[]string{"a/*/x", "a/b/x", "a/c/x", "a/c/y", "*"},
+		[]string{"", "*", "a", "a/*", "a/*/x", "a/*/y", "*/*/x", "*/*", "a/b", "a/b/x", "a/c/*", "a/*/*", "*/*/*"})
+	return seqmc.Spec{Name: "leaf paths with elements named '*' next to ordinary siblings (closure)", Ops: lit.names, Depth: 16, New: func() seqmc.Sys {
+		return &sys{a: lit, t: &ctree.Tree{}, m: map[string]string{}}
+	}}
+}
+
 // ---- values of non-comparable dynamic types (slices, maps, structs holding
 // them): the tree stores interface{} values and must never compare them
 
@@ -639,6 +653,7 @@ func (harness) Specs(tier string) []seqmc.Spec {
 			mk("{a,b} paths<=3 patterns<=4 (closure)", ab, 3, 4, 16),
 			mk("{a,b,c} paths<=2 patterns<=3 (closure)", []string{"a", "b", "c"}, 2, 3, 16),
 			mk("{a,a-,a.} paths<=2 patterns<=2 (closure)", []string{"a", "a-", "a."}, 2, 2, 16),
+			literalGlobSpec(),
 			structuredSpec(),
 		}
 	}
@@ -652,7 +667,7 @@ func (harness) Specs(tier string) []seqmc.Spec {
 	// character that sorts below the path separator ('-' < '/'): ordering by
 	// elements differs from ordering by joined strings
 	pre := mk("{a,a-} paths<=2 patterns<=2 (closure)", []string{"a", "a-"}, 2, 2, 16)
-	return []seqmc.Spec{mk("{a,b} paths<=3 patterns<=3 (closure)", ab, 3, 3, 16), deepSpec, pre, structuredSpec()}
+	return []seqmc.Spec{mk("{a,b} paths<=3 patterns<=3 (closure)", ab, 3, 3, 16), deepSpec, pre, literalGlobSpec(), structuredSpec()}
 }
 
 func main() { seqmc.Main(harness{}) }
